@@ -190,3 +190,22 @@ def clause_seq_mark_writes(r, mir):
     if set(ws) - {"TagScanner::enter_ch_sequence_matching[StateMachine]", "TagScanner::leave_ch_sequence_matching[StateMachine]", "TagScanner::new"} or \
             len(e) != 1 or not e[0].endswith("Option::Some{TagScanner::pos[StateMachine](self)}") or extra_calls or has_branch or len(l) != 1 or not l[0].endswith("Option::None{}"):
         r.violate("seq-mark|writes", f"TagScanner.ch_sequence_matching_start must be set to Some(pos()) unconditionally by enter_ch_sequence_matching and to None by leave_ch_sequence_matching (writes: {ws}, other calls in enter: {extra_calls}, branch in enter: {has_branch}): a mark kept from the previous chunk is an offset into a buffer that no longer exists — the consumed count lags or underflows", en.loc())
+
+
+def clause_deactivate_counts(r, mir):
+    """HandlerVec::do_for_each_active_and_deactivate: the aggregate count is reduced by the item's count *before* the
+    item's count is zeroed (otherwise has_active() stays true for ever and the dispatcher keeps asking for every start tag)"""
+    f = mir.fn("HandlerVec::do_for_each_active_and_deactivate")
+    subs = [bi for bi, b in enumerate(f.blocks) for st in b["stmts"] if st["k"] == "assign" and st["rv"]["k"] == "bin" and st["rv"]["op"].startswith("Sub") and "user_count" in f.deep(st["rv"]["a"]) and "user_count" in f.deep(st["rv"]["b"])]
+    zero = [(bi, i) for bi, b in enumerate(f.blocks) for i, st in enumerate(b["stmts"]) if st["k"] == "assign" and st["p"]["proj"] and f.describe_place(st["p"]).endswith(".user_count") and st["rv"]["k"] == "use" and f.deep(st["rv"]["o"]).startswith("const 0")]
+    r.inst("deactivate|count-before-zero", sample={"subtractions": len(subs), "zeroings": len(zero)})
+    ok = len(subs) == 1 and len(zero) == 1
+    if ok:
+        sb, (zb, zi) = subs[0], zero[0]
+        if sb == zb:
+            si = [i for i, st in enumerate(f.blocks[sb]["stmts"]) if st["k"] == "assign" and st["rv"]["k"] == "bin" and st["rv"]["op"].startswith("Sub")][0]
+            ok = si < zi
+        else:
+            ok = f.dominates(sb, zb)
+    if not ok:
+        r.violate("deactivate|count-before-zero", "do_for_each_active_and_deactivate zeroes the handler's user_count before subtracting it from the vector's total: the total never decreases, has_active() stays true after the first match, and every later start tag (and what follows each end tag) is lexed and buffered in full although no handler wants it", f.loc())
